@@ -318,9 +318,8 @@ def jobs_for(pid, tier, seed):
         J.append(mfam('fine interleaving: return / take racing a shrink (2 objects out): no capacity is lost', ['C02'], 30 if q else 40, tasks=2, max_size_concrete=2, prefix=(('get', 'T1', 0), ('get', 'T2', 0)), max_gets=1,
                       ctl=('resize',), resize_targets=(1,), max_ctl=1, thread_mode=True, fine=True, cancel=False, lifo=False, env={'create': ('ok',), 'recycle': ('ok',)}))
     if pid == 'C07':
-        J.append(mfam('fine interleaving: a grow and a shrink on two threads (1 object out)', ['C07'], 40 if q else 50, tasks=2, max_size_concrete=2, prefix=(('get', 'T1', 0),), max_gets=1,
-                      ctl=('resize',), resize_targets=(3,), max_ctl=1, task_ctl={'T2': (('resize', 0), ('resize', 1))}, cap_from_status=True, take=False,
-                      thread_mode=True, fine=True, cancel=False, lifo=False, env={'create': ('ok',), 'recycle': ('ok',)}))
+        J.append({'name': 'two resize() calls on two threads are linearizable (fine interleaving vs both serial orders, 1 object out)', 'kind': 'resize_linear',
+                  'cfg': {'max_size': 2, 'first': 3, 'seconds': (0, 1), 'depth': 60 if q else 80}, 'crates': ['deadpool']})
         J.append(mfam('a waiter holds an assigned permit across a shrink and a grow (max_size 1)', ['C07'], 6 if q else 8, tasks=2, max_size_concrete=1, prefix=(('get', 'T1', 0), ('get', 'T2', 0)),
                       env={'create': ('ok',), 'recycle': ('ok',)}, ctl=('resize',), resize_targets=(0, 1), max_ctl=2, cancel=False, take=False, lifo=False))
         J.append(mfam('fine interleaving: return / take racing a shrink (2 objects out)', ['C07'], 30 if q else 40, tasks=2, max_size_concrete=2, prefix=(('get', 'T1', 0), ('get', 'T2', 0)), max_gets=1,
@@ -340,6 +339,55 @@ def jobs_for(pid, tier, seed):
     for i, j in enumerate(J):
         j['seed'] = seed; j['tier'] = tier; j['pid'] = pid; j['budget'] = int(os.environ['VERIF_BUDGET_S']) if os.environ.get('VERIF_BUDGET_S') else (150 if q else 900)
     return J
+
+
+def run_resize_linear(prog, job):
+    """C07, "after any sequence of shrinks and grows the capacity is exactly the last value": with two resize() calls racing on two
+    threads `last` is whichever takes the slots lock last, so the outcome of every fine-grained interleaving must equal the
+    outcome of one of the two serial orders (resize is atomic in effect).  Both sides run the real MIR, so the known findings
+    about resize show up on both sides and cancel out."""
+    from .core import I
+    c = job['cfg']; vios = []; nst = 0; ntr = 0; t0 = time.time()
+    def world(fine):
+        cfg = dict(oracles=(), depth=c['depth'], tasks=2, max_size_concrete=c['max_size'], prefix=(('get', 'T1', 0),), max_gets=1, lifo=False, probe=False, cancel=False, take=False,
+                   env={'create': ('ok',), 'recycle': ('ok',)}, thread_mode=fine, fine=fine, ctl=('resize',), resize_targets=(c['first'],), max_ctl=1)
+        return w_managed.ManagedBSE(prog, cfg)
+    def summary(B, st):
+        status, snap = B.observe(st)
+        r = B.capacity_probe(st, I(10 ** 6), 'C07')          # the probe reports how many objects it obtained
+        got = r[0].get('got') if r else None
+        return (status[0] if status else None, got)
+    for second in c['seconds']:
+        # serial orders, each resize atomic
+        serial = set()
+        for order in ((('resize', c['first']), ('resize', second, 'T2')), (('resize', second, 'T2'), ('resize', c['first']))):
+            B = world(False); cur = B.init_states()
+            for a in order: cur = [y for x in cur for y in B.apply(x, a)]
+            for x in cur: serial.add(summary(B, x))
+        # every interleaving at the granularity of accesses to shared state
+        B = world(True); seen = set(); work = list(B.init_states()); finals = {}
+        while work:
+            x = work.pop(); nst += 1
+            if time.time() - t0 > job['budget'] * 3: break
+            acts = [a for a in B.actions(x) if a[0] == 'step' or a == ('resize', c['first'])]
+            if not x.threads['T2'].stack and not x.threads['T2'].local.get('tctl'): acts.append(('resize', second, 'T2'))
+            done = x.threads['C'].local['nctl'] >= 1 and x.threads['T2'].local.get('tctl') and not x.threads['C'].stack and not x.threads['T2'].stack
+            if done:
+                sm = summary(B, x); finals.setdefault(sm, x); continue
+            for a in acts:
+                for y in B.apply(x, a):
+                    ntr += 1; k = B.key(y)
+                    if k in seen: continue
+                    seen.add(k); work.append(y)
+        for sm, x in finals.items():
+            if sm not in serial:
+                vios.append({'property': 'C07', 'what': f'resize({c["first"]}) racing resize({second}) ends with (max_size, objects obtainable) = {sm}; the two serial orders give {sorted(serial, key=str)}: the interleaving is not equivalent to any order of the two calls',
+                             'model': {}, 'trace': [list(map(str, e)) for e in x.log if e[0] in ('init', 'act', 'env')], 'cfg': _jsonable(dict(B.cfg)), 'crates': job['crates'], 'family': job['name'], 'kind': 'managed'})
+    S = B.M.stats
+    return {'states': nst, 'transitions': ntr, 'violations': vios, 'samples': [], 'complete': True, 'queries': S.queries, 'sat': S.sat, 'unsat': S.unsat,
+            'solver_s': round(S.solver_s, 3), 'cache_hits': S.cache_hits, 'blocks': S.blocks, 'functions': dict(S.fns), 'models': dict(S.models), 'dump_s': prog.dump_s,
+            'bounds': {'max_size': c['max_size'], 'objects_out': 1, 'resizes': [c['first'], list(c['seconds'])], 'granularity': 'preemption before every access to shared state'},
+            'summary': f'{nst} states, {ntr} transitions, {len(vios)} violation(s)'}
 
 
 def run(job):
@@ -387,6 +435,8 @@ def run(job):
                 'functions': dict(S.fns), 'models': dict(S.models), 'dump_s': prog.dump_s,
                 'bounds': {'depth': B.cfg['depth'], 'interacts': B.cfg.get('max_interacts'), 'blocking_pool': 'tasks run atomically in any order', **{k: _jsonable(v) for k, v in cfg.items() if k in ('manager', 'prefix', 'backend', 'method')}},
                 'summary': f'{R.states} states, {R.transitions} transitions, depth {R.max_depth}, {len(vios)} violation(s)'}
+    if job['kind'] == 'resize_linear':
+        return run_resize_linear(prog, job)
     if job['kind'] == 'induct':
         from . import w_induct
         return w_induct.run_induct(prog, job)
